@@ -233,6 +233,18 @@ Boolean Double_2_ieee2(Double inp, Byte* pDest, Boolean NeedsBig) {
             Mantissa, Exponent, Fraction);
 #endif
 
+    /* (1g) Numbers below 2^(-14) become denormal in FP16: shift the mantissa down
+       *before* rounding, so rounding takes place at the bit position that is actually
+       stored.  Bits shifted out remain visible (sticky) in Fraction: */
+
+    while ((Exponent < -14) && Mantissa) {
+        if (Mantissa & 1) {
+            Fraction |= 1;
+        }
+        Mantissa >>= 1;
+        Exponent++;
+    }
+
     /* (2) Round-to-the-nearest for FP16: */
 
     /* Bits 27..18 of fractional part of mantissa will make it into dest, so the decision
@@ -270,29 +282,11 @@ Boolean Double_2_ieee2(Double inp, Byte* pDest, Boolean NeedsBig) {
     if (Exponent > 15) {
         return False;
     } else {
-        /* (3b) number that is too small may degenerate to 0: */
+        /* (3b) denormal numbers (no leading one, see 1g) and zero are stored with
+           an exponent field of zero: */
 
-        while ((Exponent < -15) && Mantissa) {
-            Exponent++;
-            Mantissa >>= 1;
-        }
-#if DBG_FLOAT
-        fprintf(stderr, "(after denormchk) %2d * 0x%08x * 2^%d Fraction 0x%08x\n",
-                Sign ? -1 : 1, Mantissa, Exponent, Fraction);
-#endif
-
-        /* numbers too small to represent degenerate to 0 (mantissa was shifted out) */
-
-        if (Exponent < -15) {
+        if (!(Mantissa & 0x10000000ul)) {
             Exponent = -15;
-        }
-
-        /* For denormal numbers, exponent is 2^(-14) and not 2^(-15)!
-           So if we end up with an exponent of 2^(-15), convert
-           mantissa so it corresponds to 2^(-14): */
-
-        else if (Exponent == -15) {
-            Mantissa >>= 1;
         }
 
         /* (3c) add bias to exponent */
